@@ -89,6 +89,20 @@ pub fn pp(t: &TsTy, parens: bool) -> String {
     }
 }
 
+/// C02: every project-type reference resolves through the `types` namespace.
+/// `kf`: true = with the KNOWN FINDINGS pinned by the repository's tests (names inside Record<..> and
+/// tuples stay unqualified)
+pub fn qualify(t: &TsTy, kf: bool) -> TsTy {
+    match t {
+        TsTy::Ref(n) => TsTy::Ref(format!("types.{}", n)),
+        TsTy::Prim(_) | TsTy::Raw(_) => t.clone(),
+        TsTy::Arr(e) => TsTy::Arr(Box::new(qualify(e, kf))),
+        TsTy::Nullable(e) => TsTy::Nullable(Box::new(qualify(e, kf))),
+        TsTy::Rec(k, v) => if kf { t.clone() } else { TsTy::Rec(Box::new(qualify(k, kf)), Box::new(qualify(v, kf))) },
+        TsTy::Tup(ts) => if kf { t.clone() } else { TsTy::Tup(ts.iter().map(|x| qualify(x, kf)).collect()) },
+    }
+}
+
 // ---------------------------------------------------------------- Zod oracle (C10 / C18), no validators
 /// `kf`: true = with the three KNOWN FINDINGS pinned by the repository's tests (z.set, Result union, .optional())
 pub fn zs(m: &Mappings, ts: &TypeStructure, key: bool, kf: bool) -> String {
